@@ -4,17 +4,17 @@ package main
 // library (anacrolix/torrent/bencode) and compared with the model's value.
 
 import (
-	"sync"
-	"runtime"
-	"net/http"
 	"encoding/binary"
 	"errors"
 	"fmt"
 	"net"
+	"net/http"
 	"net/http/httptest"
+	"runtime"
 	"sort"
 	"strconv"
 	"strings"
+	"sync"
 	"time"
 
 	abencode "github.com/anacrolix/torrent/bencode"
